@@ -1,5 +1,382 @@
-/- Model for C20 (core Lean only, no Mathlib). -/
+/-
+Model of the numeric helpers of `odc/geo/math.py` (core Lean only, no Mathlib).
+
+Doubles are modelled by exact rationals (`Rat`); the few functions that look at
+non-finite inputs get a thin wrapper over `XF` (finite rational | +inf | -inf | nan).
+`sqrt` never appears: where the code takes a square root (Cholesky factor in
+`decompose_rws`) the root is an *input* of the model and a hypothesis of the theorems.
+LAPACK `lstsq` is a parameter of the fit functions; the executable instance used by the
+driver solves the normal equations exactly.
+
+The integer helpers `align_up` / `align_down` are modelled in `OdcGeo.Model.C17`
+(`OdcGeo.C17.alignUp`, `alignDown`) and re-used from there.
+-/
 import OdcGeo.Model.IO
+import OdcGeo.Model.Affine
+import OdcGeo.Model.C17
 namespace OdcGeo.C20
+
+/-- Python `abs` on a float. -/
+def rabs (x : Rat) : Rat := if x < 0 then -x else x
+
+/-! ### `split_float`, `maybe_int`, `is_almost_int`, `maybe_zero`, `snap_scale`
+(math.py:32-103, 156-169) -/
+
+/-- Truncation toward zero (what C `fmod(x, 1.0)` removes; also Python `int(float)`). -/
+def trunc (x : Rat) : Int := if 0 ≤ x then x.floor else x.ceil
+
+/-- `math.fmod(x, 1.0)`: the result has the sign of `x` (truncation semantics). -/
+def fmod1 (x : Rat) : Rat := x - (trunc x : Rat)
+
+/-- `maybe_zero(x, tol)` -/
+def maybeZero (x tol : Rat) : Rat := if rabs x < tol then 0 else x
+
+/-- `split_float(x)` for finite `x`: `(x_whole, x_part)`. -/
+def splitFloat (x : Rat) : Rat × Rat :=
+  let part := fmod1 x
+  let whole := x - part
+  if part > 1 / 2 then (whole + 1, part - 1)
+  else if part < -(1 / 2) then (whole - 1, part + 1)
+  else (whole, part)
+
+/-- `maybe_int(x, tol)` for finite `x`: `some (int(x_whole))` when the value is replaced by
+an `int`, `none` when `x` itself is returned (the code's callers test this with `is`). -/
+def maybeInt? (x tol : Rat) : Option Int :=
+  let wp := splitFloat x
+  if rabs wp.2 < tol then some (trunc wp.1) else none
+
+/-- The numeric value returned by `maybe_int(x, tol)`. -/
+def maybeInt (x tol : Rat) : Rat :=
+  match maybeInt? x tol with
+  | some k => (k : Rat)
+  | none => x
+
+/-- `is_almost_int(x, tol)` for finite `x`. -/
+def isAlmostInt (x tol : Rat) : Bool :=
+  let f := rabs (fmod1 x)
+  let f := if f > 1 / 2 then 1 - f else f
+  decide (f < tol)
+
+/-- `snap_scale(s, tol)`.  `1 / s` raises `ZeroDivisionError` for `s = 0` (reachable only with
+`tol ≤ 0`), as does `1 / s_inv_snapped` for a snapped `0` (unreachable, see the theorems). -/
+def snapScale (s tol : Rat) : Res Rat :=
+  if rabs s ≥ 1 - tol then .ok (maybeInt s tol)
+  else if rabs s < tol then .ok s
+  else if s = 0 then .error .zeroDiv
+  else
+    match maybeInt? (1 / s) tol with
+    | none => .ok s
+    | some k => if k = 0 then .error .zeroDiv else .ok (1 / (k : Rat))
+
+/-- A Python float: finite (exact rational value) or one of the non-finite values. -/
+inductive XF where
+  | fin (q : Rat)
+  | pinf
+  | ninf
+  | nan
+  deriving DecidableEq, Repr
+
+/-- `split_float` on any float: non-finite `x` gives `(x, 0)`. -/
+def splitFloatX : XF → XF × XF
+  | .fin q => (.fin (splitFloat q).1, .fin (splitFloat q).2)
+  | x => (x, .fin 0)
+
+/-- `maybe_int` on any float: `Sum.inl k` = the `int` `k`, `Sum.inr x` = the float `x`
+passed through. -/
+def maybeIntX (x : XF) (tol : Rat) : Sum Int XF :=
+  match x with
+  | .fin q => match maybeInt? q tol with
+    | some k => .inl k
+    | none => .inr x
+  | _ => .inr x
+
+/-- `is_almost_int` on any float. -/
+def isAlmostIntX (x : XF) (tol : Rat) : Bool :=
+  match x with
+  | .fin q => isAlmostInt q tol
+  | _ => false
+
+/-! ### `align_up_pow2`, `align_down_pow2`, `clamp` (math.py:125-153)
+
+`int(ceil(log2(x)))` is modelled by its exact value `clog2 x` = least `n` with `x ≤ 2^n`. -/
+
+def clog2 (x : Nat) : Nat := if x ≤ 1 then 0 else Nat.log2 (x - 1) + 1
+
+def alignUpPow2 (x : Int) : Int :=
+  if x ≤ 0 then 1 else ((2 ^ clog2 x.toNat : Nat) : Int)
+
+def alignDownPow2 (x : Int) : Int :=
+  let y := alignUpPow2 x
+  if y > x then y / 2 else y     -- `y // 2`, `y > 0`
+
+/-- `clamp(x, lo, up)` -/
+def clamp (x lo up : Rat) : Res Rat :=
+  if ¬ lo ≤ up then .error .assertion
+  else .ok (if x < lo then lo else if x > up then up else x)
+
+/-! ### `_snap_edge_pos`, `_snap_edge`, `snap_grid` (math.py:172-217) -/
+
+def snapEdgePos (x0 x1 res tol : Rat) : Res (Rat × Int) :=
+  if ¬ res > 0 then .error .assertion
+  else if ¬ x1 ≥ x0 then .error .assertion
+  else
+    let i0 := (maybeInt (x0 / res) tol).floor
+    let i1 := (maybeInt (x1 / res) tol).ceil
+    let nx := max 1 (i1 - i0)
+    .ok ((i0 : Rat) * res, nx)
+
+def snapEdge (x0 x1 res tol : Rat) : Res (Rat × Int) :=
+  if ¬ x1 ≥ x0 then .error .assertion
+  else if res > 0 then snapEdgePos x0 x1 res tol
+  else do
+    let (tx', nx) ← snapEdgePos x0 x1 (-res) tol
+    return (tx' + (nx : Rat) * (-res), nx)
+
+/-- `snap_grid(x0, x1, res, off_pix, tol)` → `(tx, nx)`; `off_pix = none` is "don't snap". -/
+def snapGrid (x0 x1 res : Rat) (offPix : Option Rat) (tol : Rat) : Res (Rat × Int) :=
+  match offPix with
+  | none =>
+    if res > 0 then
+      let nx := (maybeInt ((x1 - x0) / res) tol).ceil
+      .ok (x0, max 1 nx)
+    else if res = 0 then .error .zeroDiv
+    else
+      let nx := (maybeInt ((x1 - x0) / (-res)) tol).ceil
+      .ok (x1, max nx 1)
+  | some op =>
+    if ¬ (0 ≤ op ∧ op < 1) then .error .assertion
+    else do
+      let off := op * rabs res
+      let (tx', nx) ← snapEdge (x0 - off) (x1 - off) res tol
+      return (tx' + off, nx)
+
+/-- Lower / upper world edge of the 1-d grid `(tx, nx)` with signed pixel size `res`
+(specification vocabulary, not library code). -/
+def gridLo (res tx : Rat) (nx : Int) : Rat := if 0 < res then tx else tx + (nx : Rat) * res
+def gridHi (res tx : Rat) (nx : Int) : Rat := if 0 < res then tx + (nx : Rat) * res else tx
+
+/-! ### `data_resolution_and_offset`, `affine_from_axis` (math.py:220-292) -/
+
+/-- `data_resolution_and_offset(data, fallback_resolution)` → `(res, off)`; uses the first
+and the **last** label. -/
+def dataResolutionAndOffset (data : List Rat) (fallback : Option Rat) : Res (Rat × Rat) :=
+  match data with
+  | [] => .error .valueError
+  | [x] =>
+    match fallback with
+    | none => .error .valueError
+    | some r => .ok (r, x - 1 / 2 * r)
+  | x :: y :: rest =>
+    let last := (y :: rest).getLast (List.cons_ne_nil y rest)     -- `data[size-1]`
+    let r := (last - x) / (((y :: rest).length : Nat) : Rat)      -- `/ (size - 1.0)`
+    .ok (r, x - 1 / 2 * r)
+
+/-- `affine_from_axis(xx, yy, fallback_resolution)`; the fallback is `res_(..).xy`, already
+a pair here. -/
+def affineFromAxis (xx yy : List Rat) (fallback : Option (Rat × Rat)) : Res Aff := do
+  let (xres, xoff) ← dataResolutionAndOffset xx (fallback.map (·.1))
+  let (yres, yoff) ← dataResolutionAndOffset yy (fallback.map (·.2))
+  return Aff.translation xoff yoff * Aff.scale xres yres
+
+/-! ### `is_affine_st`, `snap_affine` (math.py:340-380) -/
+
+/-- The exact value of the Python double `1e-10` (default `tol` of `is_affine_st`). -/
+def tol1em10 : Rat := mkRat 7737125245533627 77371252455336267181195264
+/-- The exact value of the Python double `1e-6` (hard-coded `tol` of `Poly2d.__init__`). -/
+def tol1em6 : Rat := mkRat 4722366482869645 4722366482869645213696
+
+def isAffineSt (A : Aff) (tol : Rat) : Bool := decide (rabs A.b < tol) && decide (rabs A.d < tol)
+
+def snapAffine (A : Aff) (ttol stol tol : Rat) : Res Aff :=
+  if rabs A.b > tol ∨ rabs A.d > tol then .ok A
+  else do
+    let sx ← snapScale A.a stol
+    let sy ← snapScale A.e stol
+    let tx := maybeInt A.c ttol
+    let ty := maybeInt A.f ttol
+    return ⟨sx, 0, tx, 0, sy, ty⟩
+
+/-! ### `decompose_rws`, `resolution_from_affine` (math.py:383-432, 494-505)
+
+2×2 matrices are `Aff` values with zero translation.  `n` and `p` are the two square
+roots the Cholesky factorisation of `AᵀA` takes (`n² = g11`, `p² = g22 - l21²`); they are
+inputs.  Steps follow the code line by line. -/
+
+def m2 (a b d e : Rat) : Aff := ⟨a, b, 0, d, e, 0⟩
+def m2T (M : Aff) : Aff := m2 M.a M.d M.b M.e
+/-- `np.linalg.inv` of a 2×2 matrix (adjugate / determinant). -/
+def m2inv (M : Aff) : Aff :=
+  m2 (M.e / M.det) (-M.b / M.det) (-M.d / M.det) (M.a / M.det)
+
+structure RWS where
+  R : Aff
+  W : Aff
+  S : Aff
+  deriving DecidableEq, Repr
+
+/-- `decompose_rws` on a 2×2 array `[[a, b], [d, e]]` with the two Cholesky roots given. -/
+def decomposeRws2 (A : Aff) (n p : Rat) : RWS :=
+  let A := m2 A.a A.b A.d A.e
+  let G := m2T A * A                          -- A.T @ A
+  -- np.linalg.cholesky(G): L = [[l11, 0], [l21, l22]]
+  let l11 := n                                -- sqrt(G11)
+  let l21 := G.d / l11
+  let l22 := p                                -- sqrt(G22 - l21²)
+  let WS := m2 l11 l21 0 l22                  -- L.T
+  let R := A * m2inv WS
+  let flip := decide (R.det < 0)
+  let R := if flip then m2 R.a (-R.b) R.d (-R.e) else R          -- R[:, -1] *= -1
+  let WS := if flip then m2 WS.a WS.b (-WS.d) (-WS.e) else WS    -- WS[-1, :] *= -1
+  let S := m2 WS.a 0 0 WS.e                   -- np.diag(np.diag(WS))
+  let W := WS * m2 (1 / WS.a) 0 0 (1 / WS.e)  -- WS @ np.diag(1.0 / ss)
+  ⟨R, W, S⟩
+
+/-- `decompose_rws(A : Affine)`: the translation rides on `R`. -/
+def decomposeRws (A : Aff) (n p : Rat) : RWS :=
+  let r := decomposeRws2 A n p
+  ⟨⟨r.R.a, r.R.b, A.c, r.R.d, r.R.e, A.f⟩, r.W, r.S⟩
+
+/-- `resolution_from_affine(A)` → `(rx, ry)`. -/
+def resolutionFromAffine (A : Aff) (n p : Rat) : Rat × Rat :=
+  if isAffineSt A tol1em10 then (A.a, A.e)
+  else
+    let S := (decomposeRws A n p).S
+    (S.a, S.e)
+
+/-! ### `affine_from_pts` (math.py:471-491)
+
+`lstsq` is a parameter: any function returning a least-squares minimiser of
+`‖[x y 1]·M − Y‖²`.  `lstsqNormal` is the executable instance (normal equations solved by
+Cramer's rule; defined when the points are not all collinear). -/
+
+def det3 (a b c d e f g h i : Rat) : Rat :=
+  a * (e * i - f * h) - b * (d * i - f * g) + c * (d * h - e * g)
+
+/-- Solve the 3×3 normal equations for one output column `ys`; `none` when singular. -/
+def solveNormal (X : List (Rat × Rat)) (ys : List Rat) : Option (Rat × Rat × Rat) :=
+  let sxx := (X.map fun p => p.1 * p.1).sum
+  let sxy := (X.map fun p => p.1 * p.2).sum
+  let syy := (X.map fun p => p.2 * p.2).sum
+  let sx := (X.map fun p => p.1).sum
+  let sy := (X.map fun p => p.2).sum
+  let s1 : Rat := (X.length : Nat)
+  let bx := ((X.zip ys).map fun q => q.1.1 * q.2).sum
+  let by' := ((X.zip ys).map fun q => q.1.2 * q.2).sum
+  let b1 := ys.sum
+  let D := det3 sxx sxy sx sxy syy sy sx sy s1
+  if D = 0 then none
+  else some (det3 bx sxy sx by' syy sy b1 sy s1 / D,
+             det3 sxx bx sx sxy by' sy sx b1 s1 / D,
+             det3 sxx sxy bx sxy syy by' sx sy b1 / D)
+
+def lstsqNormal (X Y : List (Rat × Rat)) : Option Aff := do
+  let (a, b, c) ← solveNormal X (Y.map (·.1))
+  let (d, e, f) ← solveNormal X (Y.map (·.2))
+  return ⟨a, b, c, d, e, f⟩
+
+/-- `affine_from_pts(X, Y)` with the solver as parameter. -/
+def affineFromPts (lstsq : List (Rat × Rat) → List (Rat × Rat) → Option Aff)
+    (X Y : List (Rat × Rat)) : Res Aff :=
+  if X.length ≠ Y.length then .error .assertion
+  else if X.length < 3 then .error .assertion
+  else match lstsq X Y with
+    | some A => .ok A
+    | none => .error .runtimeError
+
+/-- Sum of squared residuals of the affine map `M` on the correspondences. -/
+def sqResidual (M : Aff) (XY : List ((Rat × Rat) × (Rat × Rat))) : Rat :=
+  (XY.map fun q =>
+    let r := M.apply q.1
+    (r.1 - q.2.1) * (r.1 - q.2.1) + (r.2 - q.2.2) * (r.2 - q.2.2)).sum
+
+/-! ### `Bin1D` (math.py:568-637) -/
+
+structure Bin1D where
+  sz : Rat
+  origin : Rat
+  direction : Int
+  deriving DecidableEq, Repr
+
+namespace Bin1D
+
+/-- `Bin1D(sz, origin, direction)` with its two assertions. -/
+def mk? (sz origin : Rat) (direction : Int) : Res Bin1D :=
+  if ¬ (direction = -1 ∨ direction = 1) then .error .assertion
+  else if ¬ sz > 0 then .error .assertion
+  else .ok ⟨sz, origin, direction⟩
+
+/-- `self[idx]` → `(x0, x1)` -/
+def interval (b : Bin1D) (idx : Int) : Rat × Rat :=
+  let x := (idx : Rat) * b.sz * (b.direction : Rat) + b.origin
+  (x, x + b.sz)
+
+/-- `self.bin(x)` -/
+def bin (b : Bin1D) (x : Rat) : Int :=
+  let ix := ((x - b.origin) / b.sz).floor
+  b.direction * ix
+
+/-- `Bin1D.from_sample_bin(idx, (x0, x1), direction)` -/
+def fromSampleBin (idx : Int) (x0 x1 : Rat) (direction : Int) : Res Bin1D :=
+  if ¬ x0 < x1 then .error .assertion
+  else
+    let sz := x1 - x0
+    let origin := x0 - sz * (idx : Rat) * (direction : Rat)
+    mk? sz origin direction
+
+end Bin1D
+
+/-! ### `Poly2d` (math.py:640-797): evaluation, input transform, output de-normalisation -/
+
+/-- `numpy.polynomial.polynomial.polyval(x, cs)` = Σ cs[i]·x^i (Horner). -/
+def polyval (cs : List Rat) (x : Rat) : Rat := cs.foldr (fun c acc => c + x * acc) 0
+
+/-- `polyval2d(x, y, c)` = Σ c[i][j]·x^i·y^j for one output component. -/
+def polyval2d (c : List (List Rat)) (x y : Rat) : Rat := polyval (c.map fun row => polyval row y) x
+
+/-- `cc[i][j] = (coefficient for output 0, coefficient for output 1)` (shape (k,k,2)). -/
+structure Poly2d where
+  cc : List (List (Rat × Rat))
+  A : Aff
+  deriving Repr
+
+namespace Poly2d
+
+/-- `self._norm(x, y)` (as repaired by `fix: Poly2d takes the scale/translation shortcut only
+without rotation or shear`): the shortcut is taken only when both off-diagonal terms are
+exactly zero. -/
+def norm (A : Aff) (p : Rat × Rat) : Rat × Rat :=
+  if A.b = 0 ∧ A.d = 0 then (A.a * p.1 + A.c, A.e * p.2 + A.f)
+  else A.apply p
+
+/-- `_norm` before the repair: off-diagonal terms below the absolute tolerance `1e-6` were
+**ignored** (kept only for the counterexample theorem). -/
+def normTol (A : Aff) (p : Rat × Rat) : Rat × Rat :=
+  if rabs A.b < tol1em6 ∧ rabs A.d < tol1em6 then (A.a * p.1 + A.c, A.e * p.2 + A.f)
+  else A.apply p
+
+/-- The polynomial proper, on already normalised coordinates. -/
+def evalCC (cc : List (List (Rat × Rat))) (q : Rat × Rat) : Rat × Rat :=
+  (polyval2d (cc.map fun row => row.map (·.1)) q.1 q.2,
+   polyval2d (cc.map fun row => row.map (·.2)) q.1 q.2)
+
+/-- `self(x, y)` -/
+def eval (P : Poly2d) (p : Rat × Rat) : Rat × Rat := evalCC P.cc (norm P.A p)
+
+/-- `self.with_input_transform(A)` -/
+def withInputTransform (P : Poly2d) (A : Aff) : Poly2d := ⟨P.cc, P.A * A⟩
+
+/-- Output de-normalisation of `_fit3/_fit4/_fit9` on the flat coefficient table `cc`
+(`k×2`): `cc = cc * s; cc[0, :2] += (tx, ty)` with `(s, _, tx, _, _, ty) = ~Ab`. -/
+def denorm (cc : List (Rat × Rat)) (Ab : Aff) : List (Rat × Rat) :=
+  let Ai := Ab.inv
+  match cc.map (fun c => (c.1 * Ai.a, c.2 * Ai.a)) with
+  | [] => []
+  | c0 :: rest => (c0.1 + Ai.c, c0.2 + Ai.f) :: rest
+
+/-- `cc.reshape(k, k, 2)` for `k = 2, 3` (`_fit3` first appends a zero row). -/
+def reshape (k : Nat) (cc : List (Rat × Rat)) : List (List (Rat × Rat)) :=
+  (List.range k).map fun i => (cc.drop (i * k)).take k
+
+end Poly2d
 
 end OdcGeo.C20
